@@ -307,7 +307,7 @@ func paramFor(at *expr.AttributeExpr, name, in string, required bool) *Parameter
 	p := &Parameter{
 		In:          in,
 		Name:        name,
-		Default:     openapi.ToStringMap(at.DefaultValue),
+		Default:     openapi.EncodeBytes(openapi.ToStringMap(at.DefaultValue)),
 		Description: at.Description,
 		Required:    required,
 		Type:        at.Type.Name(),
